@@ -32,7 +32,7 @@ def design(rep, pid, tier):
             if len(job) > 3:      # too large to enumerate: random behaviours under a time box (invariants still checked on every state)
                 futs.append((m, c + " (-simulate)", ex.submit(H.run_tlc, m, c, workers=w, timeout=1500, simulate="num=15000", depth=14, tag="%s-%s-sim" % (pid, c))))
             else:
-                futs.append((m, c, ex.submit(H.run_tlc, m, c, workers=w, timeout=3000, tag="%s-%s" % (pid, c))))
+                futs.append((m, c, ex.submit(H.run_tlc, m, c, workers=w, timeout=3000, coverage=("rescale" not in c), tag="%s-%s" % (pid, c))))
         for m, c, f in futs:
             res = f.result()
             if res.distinct < 100 and not res.timed_out:
